@@ -38,12 +38,16 @@ structure Binding where
   reserved : Option String
   home : Ns
   isModule : Bool              -- the home namespace is the module
+  /-- when the home is a list/set/dict comprehension: the namespaces from it out to (and including) the first
+      one that is not such a comprehension — CPython 3.12 compiles these inline (PEP 709), so the name must be
+      free there too -/
+  enclosing : List Ns := []
   refs : List Ref
   deriving Repr
 
 /-- `reservation_scope(namespace, binding)` -/
 def Binding.scope (b : Binding) : List Ns :=
-  (b.home :: b.refs.flatMap (·.chain)).eraseDups
+  (b.home :: (b.enclosing ++ b.refs.flatMap (·.chain))).eraseDups
 
 /-! ### cost model (binding.py) -/
 
